@@ -158,13 +158,15 @@ def gen_envs(argspecs, seed=0, limit=2600):
             break
 
 
-def find_witness(actual, expected, argspecs, names=None, lane_bits=None, seed=0, env_ok=None):
-    """a point where the two closed forms differ, or None"""
+def find_witness(actual, expected, argspecs, names=None, lane_bits=None, seed=0, env_ok=None, watch=None):
+    """a point where the two closed forms differ (or where the actual one is undefined), or None"""
     budget = max(24, min(2600, 600000 // max(1, T.size(actual) + T.size(expected))))
     for ne, args in enumerate(gen_envs(argspecs, seed)):
         if ne >= budget:
             break
         env = {"args": args, "mem": lambda a: ((a * 131) ^ (a >> 7) ^ 0x5B) & 0xFF}
+        if watch:
+            env = dict(env, watch=None)
         if env_ok is not None:
             ok = env_ok(args, names)
             if ok is None:
@@ -180,6 +182,8 @@ def find_witness(actual, expected, argspecs, names=None, lane_bits=None, seed=0,
         except T.Uneval:
             continue
         try:
+            if watch:
+                env["watch"] = watch
             a = T.ev(actual, env)
         except T.Poison as p:
             w = {"args": {}, "got": "undefined: %s" % p, "expected": hex(e)}
@@ -254,8 +258,26 @@ class _NoMem:
     accesses = ()
 
 
+def _watch(summary):
+    w = {}
+    for r_, opn, flags, a, b, loc in getattr(summary, "flagged", ()):
+        w.setdefault(id(r_), []).append((opn, flags, a, b, loc))
+    return w
+
+
 def compare(actual, expected, summary, argspecs, names, lane_bits, pure=True, env_ok=None):
     """generic verdict for value-returning pure operations"""
+    v, d, w = _compare(actual, expected, summary, argspecs, names, lane_bits, pure, env_ok)
+    if v == HOLDS and getattr(summary, "flagged", None) and actual is not None and interpreted(actual):
+        # the value is right wherever it is defined; look for a valid input on which an
+        # overflow-flagged (nsw/nuw) operation that feeds the result overflows
+        wt = find_witness(actual, actual, argspecs, names, lane_bits, env_ok=env_ok, watch=_watch(summary))
+        if wt is not None:
+            return REFUTED, "undefined behaviour on a valid input: %s" % wt.get("got"), wt
+    return v, d, w
+
+
+def _compare(actual, expected, summary, argspecs, names, lane_bits, pure=True, env_ok=None):
     if pure and summary.accesses and all(
             (a.kind == "r" and (a.base[0] == "global" or (a.base[0] == "add" and any(x[0] == "global" for x in a.base[2:]))))
             or a.base[0] == "alloca"
@@ -299,7 +321,7 @@ def compare(actual, expected, summary, argspecs, names, lane_bits, pure=True, en
     if actual[1] != expected[1]:
         return UNDECIDED, "width mismatch %d vs %d" % (actual[1], expected[1]), None
     if interpreted(actual) and interpreted(expected):
-        w = find_witness(actual, expected, argspecs, names, lane_bits, env_ok=env_ok)
+        w = find_witness(actual, expected, argspecs, names, lane_bits, env_ok=env_ok, watch=_watch(summary))
         if w is not None:
             return REFUTED, T.show(actual, 5, names), w
         return UNDECIDED, "forms differ, no separating point found: " + T.show(actual, 4, names), None
